@@ -1,4 +1,5 @@
 import RJson.Model.Cover
+import RJson.Model.Label
 /-! `modeld`: line-protocol driver. One operation per input line, one result line per operation.
     Core-only (no Mathlib), so it links as a `lean_exe`. -/
 
@@ -14,6 +15,17 @@ partial def loop (h : IO.FS.Stream) (out : IO.FS.Stream) : IO Unit := do
     | some M, some k =>
       for ln in RJson.Cover.coverLines M k do out.putStrLn ln
       out.putStrLn "end-cover"
+    | _, _ => out.putStrLn "bad-op"
+  | ["labels", name, kind] =>
+    let k? : Option RJson.Abs.Kind := match kind with
+      | "skip" => some .skip | "fast" => some .fast | "harr" => some .harr | "hobj" => some .hobj | _ => none
+    match RJson.Driver.machineByName name, k? with
+    | some M, some k =>
+      let st := RJson.Label.label M (RJson.Abs.machine k)
+      match st.err with
+      | some e => out.putStrLn ("MISMATCH " ++ e)
+      | none => out.putStrLn (RJson.Label.render "labels" st)
+      out.putStrLn "end-labels"
     | _, _ => out.putStrLn "bad-op"
   | ["flush"] => out.flush
   | _ => out.putStrLn (RJson.Driver.runLine l)
